@@ -441,12 +441,21 @@ def divrem1Norm (ms frac : List Nat) (d : Nat) : List Nat × Nat :=
     let (qs, r) := preinvLoop d dinv (ms ++ frac) r
     (qh ++ qs, r)
 
+/-- divrem_1.c:176-189: skip a division if high < divisor.  Returns (high quotient limbs, r, remaining limbs). -/
+def divrem1Skip (ms : List Nat) (d : Nat) : List Nat × Nat × List Nat :=
+  match ms with
+  | [] => ([], 0, [])
+  | n1 :: rest => if n1 < d then ([0], n1, rest) else ([], 0, n1 :: rest)
+
+/-- divrem_1.c:226-243: `if (un != 0) { n1 = up[un-1]; r |= n1 >> (64-norm); loop }`. -/
+def unnormFeed (d dinv norm : Nat) (ms : List Nat) (r : Nat) : List Nat × Nat :=
+  match ms with
+  | [] => ([], r)
+  | n1 :: rest => unnormLoop d dinv norm n1 rest (r ||| (n1 >>> (64 - norm)))
+
 /-- divrem_1.c:169-250, most significant bit of the divisor clear. -/
 def divrem1Unnorm (ms frac : List Nat) (d : Nat) : List Nat × Nat :=
-  let (qh, r, ms) :=                                     -- :176-189 skip a division if high < divisor
-    match ms with
-    | [] => ([], 0, [])
-    | n1 :: rest => if n1 < d then ([0], n1, rest) else ([], 0, n1 :: rest)
+  let (qh, r, ms) := divrem1Skip ms d                    -- :176-189
   let n := ms.length + frac.length
   if n = 0 then (qh, r) else                             -- :184-185
   if Gen.UDIV_NEEDS_NORMALIZATION = 0 && BELOW_THRESHOLD n Gen.DIVREM_1_UNNORM_THRESHOLD then  -- :191-193 goto plain
@@ -457,12 +466,7 @@ def divrem1Unnorm (ms frac : List Nat) (d : Nat) : List Nat × Nat :=
     let d := (d <<< norm) % B
     let r := (r <<< norm) % B
     let dinv := invert_limb d                            -- :224-250
-    let (q1, r) :=
-      match ms with
-      | [] => ([], r)
-      | n1 :: rest =>
-          let r := r ||| (n1 >>> (64 - norm))
-          unnormLoop d dinv norm n1 rest r
+    let (q1, r) := unnormFeed d dinv norm ms r
     let (q2, r) := preinvLoop d dinv frac r
     (qh ++ q1 ++ q2, r >>> norm)
 
